@@ -516,9 +516,21 @@ def gen_cli():
     return "\n".join(out)
 
 
+def gen_code():
+    """function bodies (slice, adjust_slice_endpoint, get_index, get_negative_index, the Index arm, validate_arity, is_truthy, get_type, compare)
+    re-translated by tools/rs2lean.py into Generated/Code.lean (checked i32/usize arithmetic, checked indexing, fuel-bounded loops)"""
+    import rs2lean
+    try:
+        return rs2lean.generate()
+    except rs2lean.TieError as e:
+        fail("rs2lean: broken tie: %s" % e)
+    except (IndexError, KeyError, TypeError, ValueError, AssertionError, RecursionError, StopIteration) as e:
+        fail("rs2lean: broken tie: the source could not be processed (%s: %s)" % (type(e).__name__, e))
+
+
 def main():
     ch = []
-    for name, fn in (("Lbp.lean", gen_lbp), ("Signatures.lean", gen_sigs), ("Features.lean", gen_features), ("LexTable.lean", gen_lextable), ("Vocab.lean", gen_vocab), ("CliArgs.lean", gen_cli)):
+    for name, fn in (("Lbp.lean", gen_lbp), ("Signatures.lean", gen_sigs), ("Features.lean", gen_features), ("LexTable.lean", gen_lextable), ("Vocab.lean", gen_vocab), ("CliArgs.lean", gen_cli), ("Code.lean", gen_code)):
         if write_if_changed(name, fn()):
             ch.append(name)
     print("translate: " + ("rewrote " + ", ".join(ch) if ch else "unchanged"))
